@@ -47,8 +47,8 @@ pub fn main_campaign() -> SimCampaign {
             avoid: avoid_all(),
             ..Flags::default()
         },
-        quick: 5000,
-        thorough: 100_000,
+        quick: 15000,
+        thorough: 300000,
         nontrivial,
         probes: vec![],
         shape: None,
